@@ -24,15 +24,20 @@ DbVerdict(r) ==
                /\ r.out.reads_ok = "T"
             THEN "ok" ELSE "bad"
 
+\* C20 fixes is_valid ("exactly when comment, contents and description are all non-empty") and that
+\* malformed sizes are errors; whether a second read of the same entry appends or replaces is not
+\* part of it, so a field is compared only while its entry has been read at most once, and
+\* is_valid only while no mandatory entry has been read twice.
 MetaVerdict(r) ==
     IF ~("steps" \in DOMAIN r.out) \/ Len(r.out.steps) # Len(r.in.calls) THEN "bad"
-    ELSE LET RECURSIVE Go(_, _)
+    ELSE LET Reads(i, e) == Cardinality({j \in 1..i : r.in.calls[j][1] = e})
+             RECURSIVE Go(_, _)
              Go(i, st) == IF i > Len(r.in.calls) THEN TRUE
                           ELSE LET res == ReadMetadata(st, r.in.calls[i][1], r.in.calls[i][2])
                                    o   == r.out.steps[i]
                                IN /\ o.ret = res[2]
-                                  /\ o.st = res[1]
-                                  /\ o.valid = (IF IsValid(res[1]) THEN "T" ELSE "F")
+                                  /\ \A e \in 1..NM : Reads(i, e) <= 1 => o.st[e] = res[1][e]
+                                  /\ (\A e \in Mandatory : Reads(i, e) <= 1) => o.valid = (IF IsValid(res[1]) THEN "T" ELSE "F")
                                   /\ Go(i + 1, res[1])
          IN IF Go(1, MetaInit) THEN "ok" ELSE "bad"
 
